@@ -24,12 +24,16 @@ type blockFact struct{ doneCase, byFlag, doneEnds bool }
 
 type facts struct {
 	callID, wrapperID, closureID, entryID         string
+	wrapperDone, closureDone                      string
 	cloneKeepsID, cloneKeepsDone, entryRootShared bool
 	guardPlain, guardDebug                        bool
-	stopBumps, stopCloses                         bool
-	execRefresh, execChecksCancel                 bool
+	stopBumps, stopCloses, stopRenews             bool
+	execRefresh, execRefreshAtReturn              bool
+	execChecksCancel, importRefresh               bool
 	watcherStops, watcherCtxErr                   bool
-	ctxSetsCancelChan                             bool
+	ctxFreshDone, ctxSetsCancelChan               bool
+	newSetsCancelChan                             bool
+	recvStoresAfterCheck, closureRestoresSlot     bool
 	blk                                           map[string]blockFact
 	execRuns                                      []string // arguments of the interp.run calls of Execute, in order ("loop:" prefix inside `for … range p.init`)
 	notes                                         []string
@@ -41,12 +45,12 @@ func src(n ast.Node) string {
 	return strings.Join(strings.Fields(b.String()), " ")
 }
 
-// newFrameCalls returns every call of newFrame inside a node.
+// newFrameCalls returns every call of newFrame or newCallFrame inside a node.
 func newFrameCalls(n ast.Node) []*ast.CallExpr {
 	var out []*ast.CallExpr
 	ast.Inspect(n, func(m ast.Node) bool {
 		if c, ok := m.(*ast.CallExpr); ok {
-			if id, ok := c.Fun.(*ast.Ident); ok && id.Name == "newFrame" {
+			if id, ok := c.Fun.(*ast.Ident); ok && (id.Name == "newFrame" || id.Name == "newCallFrame") {
 				out = append(out, c)
 			}
 		}
@@ -55,7 +59,77 @@ func newFrameCalls(n ast.Node) []*ast.CallExpr {
 	return out
 }
 
-// classify the id argument of newFrame(anc, len, id).
+// callFrame describes newCallFrame(anc, length): which id its newFrame call passes (relative to anc) and which
+// done channel the frame gets. Both are "other" when the function is missing or has an unrecognised shape.
+type callFrame struct{ id, done string }
+
+func (f *facts) callFrameOf(ip *ast.File) callFrame {
+	cf := callFrame{"other", "other"}
+	fd := common.FindFunc(ip, "", "newCallFrame")
+	if fd == nil {
+		return cf
+	}
+	if fd.Type.Params == nil || len(fd.Type.Params.List) == 0 || len(fd.Type.Params.List[0].Names) == 0 {
+		f.note("newCallFrame: parameters")
+		return cf
+	}
+	anc := fd.Type.Params.List[0].Names[0].Name
+	rootIsAncRoot := contains(fd, "root := "+anc+".root")
+	var calls []*ast.CallExpr
+	ast.Inspect(fd, func(m ast.Node) bool {
+		if c, ok := m.(*ast.CallExpr); ok {
+			if id, ok := c.Fun.(*ast.Ident); ok && id.Name == "newFrame" {
+				calls = append(calls, c)
+			}
+		}
+		return true
+	})
+	if len(calls) != 1 || len(calls[0].Args) != 3 || src(calls[0].Args[0]) != anc {
+		f.note("newCallFrame: %d newFrame calls, or the ancestor is not the parameter", len(calls))
+		return cf
+	}
+	// the frame returned is the one newFrame made
+	res := ""
+	ast.Inspect(fd, func(m ast.Node) bool {
+		if as, ok := m.(*ast.AssignStmt); ok && len(as.Lhs) == 1 && len(as.Rhs) == 1 && as.Rhs[0] == ast.Expr(calls[0]) {
+			res = src(as.Lhs[0])
+		}
+		return true
+	})
+	switch id := src(calls[0].Args[2]); {
+	case id == anc+".runid()":
+		cf.id = "parent"
+	case id == "root.runid()" && rootIsAncRoot, id == anc+".root.runid()":
+		cf.id = "root"
+	default:
+		f.note("newCallFrame: id argument %q", id)
+	}
+	// the done channel: assignments to <res>.done
+	var dones []string
+	ast.Inspect(fd, func(m ast.Node) bool {
+		if as, ok := m.(*ast.AssignStmt); ok && len(as.Lhs) == 1 && len(as.Rhs) == 1 && res != "" && src(as.Lhs[0]) == res+".done" {
+			dones = append(dones, src(as.Rhs[0]))
+		}
+		return true
+	})
+	switch {
+	case len(dones) == 0:
+		cf.done = "inherit"
+	case len(dones) == 1 && ((dones[0] == "root.done" && rootIsAncRoot) || dones[0] == anc+".root.done"):
+		cf.done = "root"
+	case len(dones) == 1 && dones[0] == anc+".done":
+		cf.done = "inherit"
+	default:
+		f.note("newCallFrame: done channel %v", dones)
+	}
+	if !contains(fd, "return "+res) {
+		cf = callFrame{"other", "other"}
+		f.note("newCallFrame does not return the frame it made")
+	}
+	return cf
+}
+
+// classify the id argument of newFrame(anc, len, id); a call of newCallFrame(anc, len) is resolved by oneSite.
 func idSrc(c *ast.CallExpr) string {
 	if len(c.Args) != 3 {
 		return "other"
@@ -74,22 +148,31 @@ func (f *facts) note(format string, a ...interface{}) {
 	f.notes = append(f.notes, "unrecognised: "+fmt.Sprintf(format, a...))
 }
 
-func (f *facts) oneSite(file *ast.File, recv, name string) string {
+// oneSite: the id and the done channel of the one frame a function makes, through newFrame (the done channel is
+// the ancestor's) or through newCallFrame (as that function says).
+func (f *facts) oneSite(file *ast.File, recv, name string, cf callFrame) (id, done string) {
 	fd := common.FindFunc(file, recv, name)
 	if fd == nil {
 		f.note("func %s not found", name)
-		return "other"
+		return "other", "other"
 	}
 	cs := newFrameCalls(fd)
 	if len(cs) != 1 {
-		f.note("%s has %d newFrame calls", name, len(cs))
-		return "other"
+		f.note("%s has %d newFrame/newCallFrame calls", name, len(cs))
+		return "other", "other"
+	}
+	if fn := cs[0].Fun.(*ast.Ident).Name; fn == "newCallFrame" {
+		if len(cs[0].Args) != 2 || cf.id == "other" || cf.done == "other" {
+			f.note("%s: %s", name, src(cs[0]))
+			return "other", "other"
+		}
+		return cf.id, cf.done
 	}
 	s := idSrc(cs[0])
 	if s == "other" {
 		f.note("%s: newFrame id argument %q", name, src(cs[0]))
 	}
-	return s
+	return s, "inherit"
 }
 
 func contains(n ast.Node, text string) bool {
@@ -258,13 +341,14 @@ func (f *facts) blockFact(file *ast.File, name string) blockFact {
 }
 
 // watcher inspects one ...WithContext function.
-func (f *facts) watcher(file *ast.File, name string) (stops, ctxErr, sets bool) {
+func (f *facts) watcher(file *ast.File, name string) (stops, ctxErr, sets, fresh bool) {
 	fd := common.FindFunc(file, "Interpreter", name)
 	if fd == nil {
 		f.note("func %s not found", name)
 		return
 	}
-	sets = contains(fd, "interp.cancelChan = !interp.opt.fastChan") && contains(fd, "interp.done = make(chan struct{})")
+	sets = contains(fd, "interp.cancelChan = !interp.opt.fastChan")
+	fresh = contains(fd, "interp.done = make(chan struct{})")
 	ast.Inspect(fd, func(m ast.Node) bool {
 		cc, ok := m.(*ast.CommClause)
 		if !ok || cc.Comm == nil || src(cc.Comm) != "<-ctx.Done()" {
@@ -295,17 +379,47 @@ func extract(repo string) (*facts, string, error) {
 	if err != nil {
 		return nil, "", err
 	}
-	f.callID = f.oneSite(run, "", "call")
-	f.wrapperID = f.oneSite(run, "", "genFunctionWrapper")
-	f.entryID = f.oneSite(run, "Interpreter", "run")
-	// getFunc: newFrame(fr, …, fr.runid()) with fr := f.clone()
-	f.closureID = f.oneSite(run, "", "getFunc")
+	cfr := f.callFrameOf(ip)
+	var d string
+	if f.callID, d = f.oneSite(run, "", "call", cfr); d != "inherit" {
+		f.callID = "other"
+		f.note("call: the frame does not inherit the done channel of its ancestor")
+	}
+	f.wrapperID, f.wrapperDone = f.oneSite(run, "", "genFunctionWrapper", cfr)
+	if f.entryID, d = f.oneSite(run, "Interpreter", "run", cfr); d != "inherit" {
+		f.entryID = "other"
+		f.note("Interpreter.run: the frame is not made by newFrame")
+	}
+	// getFunc: newCallFrame(fr, …) / newFrame(fr, …, fr.runid()) with fr := f.clone()
+	f.closureID, f.closureDone = f.oneSite(run, "", "getFunc", cfr)
 	if gf := common.FindFunc(run, "", "getFunc"); gf != nil {
 		cs := newFrameCalls(gf)
-		if len(cs) == 1 && len(cs[0].Args) == 3 && !contains(gf, src(cs[0].Args[0])+" := f.clone()") {
+		if len(cs) == 1 && len(cs[0].Args) >= 2 && !contains(gf, src(cs[0].Args[0])+" := f.clone()") {
 			f.closureID = "other"
 			f.note("getFunc: the ancestor of the closure frame is not f.clone()")
 		}
+		// the wrapper's epilogue: does it write the literal's slot of the enclosing frame back?
+		ast.Inspect(gf, func(m ast.Node) bool {
+			c, ok := m.(*ast.CallExpr)
+			if !ok || src(c.Fun) != "reflect.MakeFunc" || len(c.Args) != 2 {
+				return true
+			}
+			ast.Inspect(c.Args[1], func(k ast.Node) bool {
+				if as, ok := k.(*ast.AssignStmt); ok {
+					for _, l := range as.Lhs {
+						if strings.HasPrefix(src(l), "getFrame(f, l).data[") {
+							f.closureRestoresSlot = true
+						}
+					}
+				}
+				return true
+			})
+			return true
+		})
+	}
+	// newFrame itself: the frame inherits the ancestor's done channel and root
+	if nf := common.FindFunc(ip, "", "newFrame"); nf == nil || !contains(nf, "f.done = anc.done") || !contains(nf, "f.root = anc.root") {
+		f.note("newFrame does not copy anc.done / anc.root")
 	}
 	if cl := common.FindFunc(ip, "frame", "clone"); cl != nil {
 		ast.Inspect(cl, func(m ast.Node) bool {
@@ -353,6 +467,12 @@ func extract(repo string) (*facts, string, error) {
 				f.stopBumps = true
 			case "close(interp.done)":
 				f.stopCloses = true
+			case "interp.done = make(chan struct{})":
+				// a fresh channel for the evaluations that follow, installed after the close
+				f.stopRenews = f.stopCloses
+				if !f.stopCloses {
+					f.note("stop replaces interp.done before closing it")
+				}
 			}
 		}
 	} else {
@@ -390,6 +510,10 @@ func extract(repo string) (*facts, string, error) {
 				}
 				continue
 			}
+			if t == "defer func() { interp.frame.setrunid(interp.runid()) }()" {
+				f.execRefreshAtReturn = true
+				continue
+			}
 			if seenRun {
 				ast.Inspect(s, func(m ast.Node) bool {
 					switch x := m.(type) {
@@ -409,20 +533,111 @@ func extract(repo string) (*facts, string, error) {
 	} else {
 		f.note("Execute not found")
 	}
-	s1, e1, c1 := f.watcher(ip, "EvalWithContext")
-	s2, e2, c2 := f.watcher(ip, "EvalPathWithContext")
-	s3, e3, c3 := f.watcher(prog, "ExecuteWithContext")
-	f.watcherStops, f.watcherCtxErr, f.ctxSetsCancelChan = s1 && s2 && s3, e1 && e2 && e3, c1 && c2 && c3
+	s1, e1, c1, d1 := f.watcher(ip, "EvalWithContext")
+	s2, e2, c2, d2 := f.watcher(ip, "EvalPathWithContext")
+	s3, e3, c3, d3 := f.watcher(prog, "ExecuteWithContext")
+	f.watcherStops, f.watcherCtxErr, f.ctxSetsCancelChan, f.ctxFreshDone = s1 && s2 && s3, e1 && e2 && e3, c1 && c2 && c3, d1 && d2 && d3
+	if (c1 || c2 || c3) && !(c1 && c2 && c3) {
+		f.note("only some of the ...WithContext entry points set cancelChan")
+	}
+	// New: cancelChan is set once, unconditionally, when the interpreter is created
+	if nw := common.FindFunc(ip, "", "New"); nw != nil {
+		for _, s := range nw.Body.List {
+			if src(s) == "i.cancelChan = !i.opt.fastChan" {
+				f.newSetsCancelChan = true
+			}
+		}
+	} else {
+		f.note("New not found")
+	}
+	// importSrc: the root id is refreshed before the entry points of the imported package run
+	if fsetS, srcf, err := common.ParseFile(repo, "interp/src.go"); err == nil {
+		_ = fsetS
+		if is := common.FindFunc(srcf, "Interpreter", "importSrc"); is != nil {
+			seenRun := false
+			for _, s := range is.Body.List {
+				if contains(s, "interp.run(n, nil)") || contains(s, "interp.run(n, interp.frame)") {
+					seenRun = true
+				}
+				if src(s) == "interp.frame.setrunid(interp.runid())" && !seenRun {
+					f.importRefresh = true
+				}
+			}
+			if !seenRun {
+				f.note("importSrc: no interp.run call found")
+			}
+		} else {
+			f.note("importSrc not found")
+		}
+	} else {
+		f.note("interp/src.go: %v", err)
+	}
+	// recv: in the cancellable variants the value received is stored after the test of the chosen case
+	f.recvStoresAfterCheck = recvStoresAfterCheck(run)
 	for _, k := range [][2]string{{"recv", "recv"}, {"recv2", "recv2"}, {"send", "send"}, {"range", "rangeChan"}, {"select", "_select"}} {
 		f.blk[k[0]] = f.blockFact(run, k[1])
 	}
 	hashes := "[" + strings.Join([]string{
-		strings.Trim(common.HashTable(fsetI, ip, [][2]string{{"", "newFrame"}, {"frame", "runid"}, {"frame", "setrunid"}, {"frame", "clone"},
+		strings.Trim(common.HashTable(fsetI, ip, [][2]string{{"", "newFrame"}, {"", "newCallFrame"}, {"frame", "runid"}, {"frame", "setrunid"}, {"frame", "clone"},
 			{"Interpreter", "stop"}, {"Interpreter", "runid"}, {"Interpreter", "EvalWithContext"}, {"Interpreter", "EvalPathWithContext"}}), "[]"),
 		strings.Trim(common.HashTable(fsetP, prog, [][2]string{{"Interpreter", "ExecuteWithContext"}}), "[]"),
 		strings.Trim(common.HashTable(fsetR, run, [][2]string{{"Interpreter", "run"}, {"", "rangeChan"}}), "[]"),
 	}, ",\n   ") + "]"
 	return f, hashes, nil
+}
+
+// recvStoresAfterCheck: every reflect.Select of recv binds its results to plain variables, and the closure that
+// contains it stores the received value into the frame only after `if chosen == 0 { return nil }`.
+func recvStoresAfterCheck(run *ast.File) bool {
+	fd := common.FindFunc(run, "", "recv")
+	if fd == nil {
+		return false
+	}
+	n, good := 0, 0
+	ast.Inspect(fd, func(m ast.Node) bool {
+		fl, ok := m.(*ast.FuncLit)
+		if !ok {
+			return true
+		}
+		for i, st := range fl.Body.List {
+			as, ok := st.(*ast.AssignStmt)
+			if !ok || len(as.Rhs) != 1 {
+				continue
+			}
+			c, ok := as.Rhs[0].(*ast.CallExpr)
+			if !ok || src(c.Fun) != "reflect.Select" {
+				continue
+			}
+			n++
+			if len(as.Lhs) != 3 {
+				continue
+			}
+			plain := true
+			for _, l := range as.Lhs {
+				if _, ok := l.(*ast.Ident); !ok {
+					plain = false
+				}
+			}
+			if !plain {
+				continue
+			}
+			chosen, v := src(as.Lhs[0]), src(as.Lhs[1])
+			checked, stored := false, false
+			for _, later := range fl.Body.List[i+1:] {
+				if is, ok := later.(*ast.IfStmt); ok && src(is.Cond) == chosen+" == 0" && len(is.Body.List) == 1 && src(is.Body.List[0]) == "return nil" {
+					checked = true
+				}
+				if src(later) == "getFrame(f, l).data[i] = "+v {
+					stored = checked
+				}
+			}
+			if checked && stored {
+				good++
+			}
+		}
+		return true
+	})
+	return n > 0 && n == good
 }
 
 func b(v bool) string {
@@ -446,19 +661,22 @@ func Lean(id, repo string) (string, error) {
 namespace YaegiVerif.Generated.%s
 open YaegiVerif.RunId
 /-- interp/run.go (call, genFunctionWrapper, getFunc, Interpreter.run, runCfg, recv, recv2, send, rangeChan, _select),
-    interp/interp.go (clone, stop, runid, EvalWithContext, EvalPathWithContext), interp/program.go (Execute, ExecuteWithContext) -/
+    interp/interp.go (newFrame, newCallFrame, clone, stop, runid, New, EvalWithContext, EvalPathWithContext),
+    interp/program.go (Execute, ExecuteWithContext), interp/src.go (importSrc) -/
 def facts : RunIdFacts :=
-  { callId := .%s, wrapperId := .%s, closureId := .%s, cloneKeepsId := %s, cloneKeepsDone := %s,
+  { callId := .%s, wrapperId := .%s, wrapperDone := .%s, closureId := .%s, closureDone := .%s,
+    cloneKeepsId := %s, cloneKeepsDone := %s,
     entryId := .%s, entryRootShared := %s,
     guardPlain := %s, guardDebug := %s,
-    stopBumps := %s, stopCloses := %s,
-    execRefresh := %s, execChecksCancel := %s,
-    watcherStops := %s, watcherCtxErr := %s, ctxSetsCancelChan := %s,
+    stopBumps := %s, stopCloses := %s, stopRenews := %s,
+    execRefresh := %s, execRefreshAtReturn := %s, execChecksCancel := %s, importRefresh := %s,
+    watcherStops := %s, watcherCtxErr := %s, ctxFreshDone := %s, ctxSetsCancelChan := %s, newSetsCancelChan := %s,
     recv := %s,
     recv2 := %s,
     send := %s,
     range := %s,
-    select := %s }
+    select := %s,
+    recvStoresAfterCheck := %s, closureRestoresSlot := %s }
 /-- program.go Execute: the run list (arguments of its interp.run calls, in order) -/
 def execRuns : List String := %s
 /-- what the extractor could not recognise (must be empty) -/
@@ -467,9 +685,10 @@ def notes : List String := %s
 def sourceHashes : List (String × String) :=
   %s
 end YaegiVerif.Generated.%s
-`, id, f.callID, f.wrapperID, f.closureID, b(f.cloneKeepsID), b(f.cloneKeepsDone), f.entryID, b(f.entryRootShared),
-		b(f.guardPlain), b(f.guardDebug), b(f.stopBumps), b(f.stopCloses), b(f.execRefresh), b(f.execChecksCancel),
-		b(f.watcherStops), b(f.watcherCtxErr), b(f.ctxSetsCancelChan),
-		bf("recv"), bf("recv2"), bf("send"), bf("range"), bf("select"),
+`, id, f.callID, f.wrapperID, f.wrapperDone, f.closureID, f.closureDone, b(f.cloneKeepsID), b(f.cloneKeepsDone), f.entryID, b(f.entryRootShared),
+		b(f.guardPlain), b(f.guardDebug), b(f.stopBumps), b(f.stopCloses), b(f.stopRenews),
+		b(f.execRefresh), b(f.execRefreshAtReturn), b(f.execChecksCancel), b(f.importRefresh),
+		b(f.watcherStops), b(f.watcherCtxErr), b(f.ctxFreshDone), b(f.ctxSetsCancelChan), b(f.newSetsCancelChan),
+		bf("recv"), bf("recv2"), bf("send"), bf("range"), bf("select"), b(f.recvStoresAfterCheck), b(f.closureRestoresSlot),
 		common.LeanStrList(f.execRuns), common.LeanStrList(f.notes), hashes, id), nil
 }
